@@ -8,7 +8,8 @@ RESTORE = None
 
 
 def run(chk):
-    return rc.run_property(chk, 'C03', ORACLES, restore=RESTORE)
+    # besides the model-tied histories: commands that meet an I/O fault while they copy a data file (oracles only)
+    return rc.run_property(chk, 'C03', ORACLES, restore=RESTORE, fault_stream=36 if chk.tier == 'quick' else 400)
 
 
 def replay(chk, data):
